@@ -1262,21 +1262,26 @@ theorem dirArgTypes_input (h : cfg.directives.findSome? (dirErr cfg) = none) :
     ∀ t ∈ dirArgTypes cfg, isInputType cfg t = true := by
   intro t ht
   unfold dirArgTypes at ht
-  split at ht
+  rw [List.mem_flatMap] at ht
+  obtain ⟨dd, hdd, htd⟩ := ht
+  unfold dirDefs at hdd
+  split at hdd
   · obtain ⟨h1, h2⟩ := specified_input cfg
-    simp only [List.mem_cons, List.not_mem_nil, or_false] at ht
-    rcases ht with rfl | rfl | rfl
-    · exact h1
-    · exact h1
-    · exact h2
-  · rw [List.mem_flatMap] at ht
-    obtain ⟨d, hd, htd⟩ := ht
+    simp only [List.mem_cons, List.not_mem_nil, or_false] at hdd
+    rcases hdd with rfl | rfl | rfl
+    · simp only [List.map_cons, List.map_nil, List.mem_singleton] at htd; rw [htd]; exact h1
+    · simp only [List.map_cons, List.map_nil, List.mem_singleton] at htd; rw [htd]; exact h1
+    · simp only [List.map_cons, List.map_nil, List.mem_singleton] at htd; rw [htd]; exact h2
+  · rw [List.mem_filterMap] at hdd
+    obtain ⟨d, hd, hde'⟩ := hdd
     rw [List.findSome?_eq_none_iff] at h
     have hde := h d hd
     cases d with
-    | none => cases htd
+    | none => cases hde'
     | some d =>
-      simp only [List.mem_map] at htd
+      simp only [Option.some.injEq] at hde'
+      subst hde'
+      simp only [List.map_map, List.mem_map, Function.comp] at htd
       obtain ⟨a, ha, rfl⟩ := htd
       simp only [dirErr, dirCtorErr] at hde
       split at hde
